@@ -63,6 +63,10 @@ def check_once(contract, case, args: dict, fn=None):
                 return "skip", None
     except Exception as e:
         return "skip", f"requires raised {type(e).__name__}"
+    lets = {}
+    for name, expr in case.lets.items():
+        lets[name] = eval(expr, env0)
+        env0[name] = lets[name]
     call_args = copy.deepcopy(args)
     argnames = [a.arg for a in ex.node.args.posonlyargs + ex.node.args.args + ex.node.args.kwonlyargs]
     kw = {k: v for k, v in call_args.items() if k in argnames}
@@ -75,6 +79,7 @@ def check_once(contract, case, args: dict, fn=None):
     except Exception as e:  # the real function raised
         outcome, value = "raise", e
     env = _env(contract, ex, dict(entry))
+    env.update(lets)
     for k, v in call_args.items():
         if isinstance(v, (list, dict, set)) or hasattr(v, "__dict__"):
             env["old_" + k] = entry[k]
